@@ -247,3 +247,41 @@ def model_float(model, name, default=0.0):
             except Exception:
                 return default
     return default
+
+
+def key_subterms(arrs, must_contain=(), index=None, limit=8):
+    """Key-sort subterms of the given symbolic leaves (evaluated at `index` on their leading axis when given) that contain every constant in `must_contain`,
+    smallest first: candidates for 'the key this lane was computed from'."""
+    from . import ir
+    import z3
+    from .vc import term_contains
+    roots = []
+    for l in arrs:
+        rest = tuple(z3.Int(f"ks!{j}") if not isinstance(d, int) else 0 for j, d in enumerate(l.shape[1:])) if index is not None else None
+        try:
+            t = l.at((index,) + rest) if index is not None else l.at(tuple(0 if isinstance(d, int) else z3.Int(f"ks!{j}") for j, d in enumerate(l.shape)))
+        except Exception:
+            continue
+        if ir.is_z3(t):
+            roots.append(t)
+    found, seen, stack = {}, set(), list(roots)
+    while stack:
+        t = stack.pop()
+        if t.get_id() in seen:
+            continue
+        seen.add(t.get_id())
+        if t.sort() == ir.KeySort and z3.is_app(t) and t.num_args() > 0 and all(term_contains(t, c) for c in must_contain):
+            found[t.get_id()] = t
+        stack.extend(t.children())
+
+    def size(t):
+        n, st, sn = 0, [t], set()
+        while st:
+            x = st.pop()
+            if x.get_id() in sn:
+                continue
+            sn.add(x.get_id())
+            n += 1
+            st.extend(x.children())
+        return n
+    return sorted(found.values(), key=size)[:limit]
